@@ -517,7 +517,10 @@ fn find_mapped_expr_id_from_token(
 ) -> Option<hir::ExprId> {
     let mut current = token.parent();
     while let Some(node) = current {
-        if cst::nodes::Expr::can_cast(node.kind()) {
+        // The variable of a shorthand field `S { x }` is recorded under its field node.
+        if cst::nodes::Expr::can_cast(node.kind())
+            || node.kind() == MySyntaxKind::STRUCT_LITERAL_FIELD
+        {
             let ptr = MySyntaxNodePtr::new(&node);
             if let Some(id) = index.expr_id(&ptr) {
                 return Some(id);
